@@ -706,7 +706,8 @@ fn run_sel(case: &str, ctx: &mut Ctx, drv: &mut Driver, rep: &mut Report) {
             let (neg, pat) = match g.strip_prefix('!') { Some(p) => (true, p), None => (false, g.as_str()) };
             format!("({} {})", neg as u8, glob_hit(pat, n) as u8)
         }).collect();
-        let reply = drv.ask(&format!("c18.select (cfg 0 {} {} {}) (globs {})", pre, z, n.ends_with(".gz") as u8, gsx.join(" ")));
+        let recognised = drv.ask(&format!("c18.recognised {}", hex(n.as_bytes())));
+        let reply = drv.ask(&format!("c18.select (cfg 0 {} {} {}) (globs {})", pre, z, recognised, gsx.join(" ")));
         let parts: Vec<&str> = reply.split(' ').collect();
         if parts.len() != 4 {
             problems_m.push(format!("driver reply {}", reply));
